@@ -516,16 +516,61 @@ package stats
 //@   loop 1 (tie) invariant t == tcsum(ties, _k)
 //@   assigns nothing
 
+// --- U is the pair count (C01/C03, identity M1), on the labelled merge -----
+// cnt1/cnt2: how many of the first k merged values come from sample 1 / 2.
+// lt2/le2(K, v): how many sample-2 values among the first K are < v / <= v.
+// pairs2(n, k): for the sample-1 values among the first k, twice the number of
+// sample-2 values (among all n) below them plus the number equal to them - i.e.
+// 2 * (#(a > b) + #(a = b)/2) restricted to those a.
+//@ spec cnt2(a []byte, k int) int = k <= 0 ? 0 : cnt2(a, k-1) + (a[k-1] == 2 ? 1 : 0)
+//@ spec lt2(m []float64, l []byte, K int, v float64) int = K <= 0 ? 0 : lt2(m, l, K-1, v) + ((l[K-1] == 2 && m[K-1] < v) ? 1 : 0)
+//@ spec le2(m []float64, l []byte, K int, v float64) int = K <= 0 ? 0 : le2(m, l, K-1, v) + ((l[K-1] == 2 && m[K-1] <= v) ? 1 : 0)
+//@ spec pairs2(m []float64, l []byte, n int, k int) int = k <= 0 ? 0 : pairs2(m, l, n, k-1) + (l[k-1] == 1 ? lt2(m, l, n, m[k-1]) + le2(m, l, n, m[k-1]) : 0)
+
+// the counts depend only on the prefix they scan
+//@ lemma cnt1_frame(a []byte, b []byte, k int) induction k same
+//@   model real
+//@   requires 0 <= k && k <= len(a) && k <= len(b) && (forall j in 0..k :: a[j] == b[j])
+//@   ensures cnt1(a, k) == cnt1(b, k)
+//@   trigger cnt1(a, k), cnt1(b, k)
+//@ lemma cnt2_frame(a []byte, b []byte, k int) induction k same
+//@   model real
+//@   requires 0 <= k && k <= len(a) && k <= len(b) && (forall j in 0..k :: a[j] == b[j])
+//@   ensures cnt2(a, k) == cnt2(b, k)
+//@   trigger cnt2(a, k), cnt2(b, k)
+//@ lemma cnt12(l []byte, k int) induction k
+//@   model real
+//@   requires 0 <= k && k <= len(l) && (forall j in 0..len(l) :: l[j] == 1 || l[j] == 2)
+//@   ensures cnt1(l, k) + cnt2(l, k) == k && cnt1(l, k) >= 0 && cnt2(l, k) >= 0
+//@ lemma lt2_sorted(m []float64, l []byte, K int, v float64, s int) induction K same
+//@   model real
+//@   requires sortedF(m) && 0 <= s && s <= len(m) && len(l) == len(m) && 0 <= K && K <= len(m) && (s == 0 || m[s-1] < v) && (s == len(m) || m[s] >= v)
+//@   ensures lt2(m, l, K, v) == cnt2(l, min(K, s))
+//@   trigger lt2(m, l, K, v), cnt1(l, s)
+//@ lemma le2_sorted(m []float64, l []byte, K int, v float64, t int) induction K same
+//@   model real
+//@   requires sortedF(m) && 0 <= t && t <= len(m) && len(l) == len(m) && 0 <= K && K <= len(m) && (t == 0 || m[t-1] <= v) && (t == len(m) || m[t] > v)
+//@   ensures le2(m, l, K, v) == cnt2(l, min(K, t))
+//@   trigger le2(m, l, K, v), cnt1(l, t)
+//@ lemma pairs2_group(m []float64, l []byte, n int, s int, k int, v float64) induction k same
+//@   model real
+//@   requires 0 <= s && s <= k && k <= len(m) && len(l) == len(m) && (forall j in s..k :: m[j] == v)
+//@   ensures pairs2(m, l, n, k) == pairs2(m, l, n, s) + (cnt1(l, k) - cnt1(l, s)) * (lt2(m, l, n, v) + le2(m, l, n, v))
+//@   trigger pairs2(m, l, n, k), pairs2(m, l, n, s), lt2(m, l, n, v)
+
 //@ func labeledMerge
+//@   use cnt1_frame, cnt2_frame
 //@   model real
 //@   requires sortedF(x1) && sortedF(x2)
 //@   ensures [len]    len(merged) == len(x1) + len(x2) && len(labels) == len(x1) + len(x2)
 //@   ensures [sorted] sortedF(merged)
 //@   ensures [labels] forall k in 0..len(labels) :: labels[k] == 1 || labels[k] == 2
 //@   ensures [fresh]  fresh(merged) && fresh(labels)
-//@   loop 1 invariant 0 <= i && i <= len(x1) && 0 <= j && j <= len(x2) && o == i + j && len(merged) == len(x1) + len(x2) && len(labels) == len(x1) + len(x2) && fresh(merged) && fresh(labels) && (forall a in 0..o, b in 0..o :: a <= b ==> merged[a] <= merged[b]) && (forall a in 0..o :: (i < len(x1) ==> merged[a] <= x1[i]) && (j < len(x2) ==> merged[a] <= x2[j])) && (forall k in 0..o :: labels[k] == 1 || labels[k] == 2)
-//@   loop 2 invariant 0 <= i && i <= len(x1) && 0 <= j && j <= len(x2) && (i == len(x1) || j == len(x2)) && o == i + j && len(merged) == len(x1) + len(x2) && len(labels) == len(x1) + len(x2) && fresh(merged) && fresh(labels) && (forall a in 0..o, b in 0..o :: a <= b ==> merged[a] <= merged[b]) && (forall a in 0..o :: (i < len(x1) ==> merged[a] <= x1[i]) && (j < len(x2) ==> merged[a] <= x2[j])) && (forall k in 0..o :: labels[k] == 1 || labels[k] == 2)
-//@   loop 3 invariant i == len(x1) && 0 <= j && j <= len(x2) && o == i + j && len(merged) == len(x1) + len(x2) && len(labels) == len(x1) + len(x2) && fresh(merged) && fresh(labels) && (forall a in 0..o, b in 0..o :: a <= b ==> merged[a] <= merged[b]) && (forall a in 0..o :: (j < len(x2) ==> merged[a] <= x2[j])) && (forall k in 0..o :: labels[k] == 1 || labels[k] == 2)
+//@   ensures [counts] cnt1(labels, len(labels)) == len(x1) && cnt2(labels, len(labels)) == len(x2)
+//@   ensures [origin] forall k in 0..len(labels) :: (labels[k] == 1 ==> merged[k] == x1[cnt1(labels, k)]) && (labels[k] == 2 ==> merged[k] == x2[cnt2(labels, k)])
+//@   loop 1 invariant 0 <= i && i <= len(x1) && 0 <= j && j <= len(x2) && o == i + j && len(merged) == len(x1) + len(x2) && len(labels) == len(x1) + len(x2) && fresh(merged) && fresh(labels) && (forall a in 0..o, b in 0..o :: a <= b ==> merged[a] <= merged[b]) && (forall a in 0..o :: (i < len(x1) ==> merged[a] <= x1[i]) && (j < len(x2) ==> merged[a] <= x2[j])) && (forall k in 0..o :: labels[k] == 1 || labels[k] == 2) && i == cnt1(labels, o) && j == cnt2(labels, o) && (forall k in 0..o :: (labels[k] == 1 ==> merged[k] == x1[cnt1(labels, k)]) && (labels[k] == 2 ==> merged[k] == x2[cnt2(labels, k)]))
+//@   loop 2 invariant 0 <= i && i <= len(x1) && 0 <= j && j <= len(x2) && (i == len(x1) || j == len(x2)) && o == i + j && len(merged) == len(x1) + len(x2) && len(labels) == len(x1) + len(x2) && fresh(merged) && fresh(labels) && (forall a in 0..o, b in 0..o :: a <= b ==> merged[a] <= merged[b]) && (forall a in 0..o :: (i < len(x1) ==> merged[a] <= x1[i]) && (j < len(x2) ==> merged[a] <= x2[j])) && (forall k in 0..o :: labels[k] == 1 || labels[k] == 2) && i == cnt1(labels, o) && j == cnt2(labels, o) && (forall k in 0..o :: (labels[k] == 1 ==> merged[k] == x1[cnt1(labels, k)]) && (labels[k] == 2 ==> merged[k] == x2[cnt2(labels, k)]))
+//@   loop 3 invariant i == len(x1) && 0 <= j && j <= len(x2) && o == i + j && len(merged) == len(x1) + len(x2) && len(labels) == len(x1) + len(x2) && fresh(merged) && fresh(labels) && (forall a in 0..o, b in 0..o :: a <= b ==> merged[a] <= merged[b]) && (forall a in 0..o :: (j < len(x2) ==> merged[a] <= x2[j])) && (forall k in 0..o :: labels[k] == 1 || labels[k] == 2) && i == cnt1(labels, o) && j == cnt2(labels, o) && (forall k in 0..o :: (labels[k] == 1 ==> merged[k] == x1[cnt1(labels, k)]) && (labels[k] == 2 ==> merged[k] == x2[cnt2(labels, k)]))
 //@   assigns nothing
 
 //@ spec mwsigma(n1 int, n2 int, tc float64) float64 =
@@ -538,10 +583,15 @@ package stats
 //@   ensures [err-other] err == nil || err == ErrSampleSize || err == ErrSamplesEqual
 //@   ensures [nil-on-error] err != nil ==> res == nil
 //@   ensures [fields]    err == nil ==> res != nil && res.N1 == len(x1) && res.N2 == len(x2) && res.AltHypothesis == alt
-//@   loop 1 (i) invariant 0 <= i && i <= len(merged) && (isnil(T) || fresh(T)) && (forall k in 0..len(T) :: T[k] >= 1) && (hasTies <==> tied(T)) && (i == 0 <==> len(T) == 0)
-//@   loop 2 invariant rank1 - 1 <= i && i <= len(merged) && nx1 >= 0 && len(labels) == len(merged)
+//@   loop 1 (i) invariant len(labels) == len(merged) && sortedF(merged) && (forall k in 0..len(labels) :: labels[k] == 1 || labels[k] == 2) && (i == 0 || i == len(merged) || merged[i-1] < merged[i]) && 2 * R1 == cnt1(labels, i) * (cnt1(labels, i) + 1) + pairs2(merged, labels, len(merged), i) && 0 <= i && i <= len(merged) && (isnil(T) || (fresh(T) && region(T) != region(labels))) && (forall k in 0..len(T) :: T[k] >= 1) && (hasTies <==> tied(T)) && (i == 0 <==> len(T) == 0)
+//@   loop 2 invariant rank1 - 1 <= i && i <= len(merged) && nx1 >= 0 && len(labels) == len(merged) && nx1 == cnt1(labels, i) - cnt1(labels, rank1 - 1) && (forall k in rank1-1..i :: merged[k] == v1) && (i > rank1 - 1 || (i < len(merged) && merged[i] == v1))
+//@   assert @loop2:exit [below] lt2(merged, labels, len(merged), v1) == cnt2(labels, rank1 - 1) by lt2_sorted(merged, labels, len(merged), v1, rank1 - 1)
+//@   assert @loop2:exit [upto]  le2(merged, labels, len(merged), v1) == cnt2(labels, i) by le2_sorted(merged, labels, len(merged), v1, i)
+//@   assert @loop2:exit [group] pairs2(merged, labels, len(merged), i) == pairs2(merged, labels, len(merged), rank1 - 1) + nx1 * (lt2(merged, labels, len(merged), v1) + le2(merged, labels, len(merged), v1)) by pairs2_group(merged, labels, len(merged), rank1 - 1, i, v1)
+//@   assert @loop2:exit [split] cnt1(labels, rank1 - 1) + cnt2(labels, rank1 - 1) == rank1 - 1 && cnt1(labels, i) + cnt2(labels, i) == i by cnt12(labels, rank1 - 1), cnt12(labels, i)
 //@   check @ret2 [equal-exact] len(T) == 1
 //@   check @ret4 [U-field] res.U == U1 && res.P == p
+//@   check @ret4 [U-pairs] 2 * U1 == pairs2(merged, labels, len(merged), len(merged)) && cnt1(labels, len(labels)) == n1
 //@   check @ret4 [exact-less]    ((!hasTies && n1 <= MannWhitneyExactLimit && n2 <= MannWhitneyExactLimit) || (hasTies && n1 <= MannWhitneyTiesExactLimit && n2 <= MannWhitneyTiesExactLimit)) && alt == LocationLess ==> p == UDist{n1, n2, T}.CDF(U1)
 //@   check @ret4 [exact-greater] ((!hasTies && n1 <= MannWhitneyExactLimit && n2 <= MannWhitneyExactLimit) || (hasTies && n1 <= MannWhitneyTiesExactLimit && n2 <= MannWhitneyTiesExactLimit)) && alt == LocationGreater ==> p == 1 - UDist{n1, n2, T}.CDF(U1 - 0.5)
 //@   check @ret4 [exact-differs] ((!hasTies && n1 <= MannWhitneyExactLimit && n2 <= MannWhitneyExactLimit) || (hasTies && n1 <= MannWhitneyTiesExactLimit && n2 <= MannWhitneyTiesExactLimit)) && alt == LocationDiffers ==> p == min(1, 2 * min(UDist{n1, n2, T}.CDF(U1), 1 - UDist{n1, n2, T}.CDF(U1 - 0.5)))
